@@ -62,6 +62,17 @@ config!(CHeap3c, "heap3c", dyn Cloneable, Heap, Heap, E3a1n, false, 0, "heap", r
 #[cfg(feature = "alloc")]
 config!(CHeap0c, "heap0c", dyn Cloneable, Heap, Heap, E0a1d, false, 0, "heap", resizable, rawparts, cloneable);
 #[cfg(feature = "alloc")]
+config!(CHeap8s, "heap8s", dyn Send, Heap, Heap, E8a8d, false, 0, "heap", resizable, rawparts);
+#[cfg(feature = "alloc")]
+config!(CHeap8y, "heap8y", dyn Sync, Heap, Heap, E8a8d, false, 0, "heap", resizable, rawparts);
+#[cfg(feature = "alloc")]
+config!(CHeap8sy, "heap8sy", dyn Send + Sync, Heap, Heap, E8a8d, false, 0, "heap", resizable, rawparts);
+#[cfg(feature = "alloc")]
+config!(CHeap8cs, "heap8cs", dyn Cloneable + Send, Heap, Heap, E8a8d, false, 0, "heap", resizable, rawparts, cloneable);
+#[cfg(feature = "alloc")]
+config!(CHeap8cy, "heap8cy", dyn Cloneable + Sync, Heap, Heap, E8a8d, false, 0, "heap", resizable, rawparts, cloneable);
+config!(CStack8sy, "stack8sy", dyn Send + Sync, Stack<24>, Stack::<24>, E8a8d, true, 3, "stack");
+#[cfg(feature = "alloc")]
 config!(CHeap8css, "heap8css", dyn Cloneable + Send + Sync, Heap, Heap, E8a8d, false, 0, "heap", resizable, rawparts, cloneable);
 config!(CEmpty8d, "empty8d", dyn TNone, any_vec::mem::Empty, any_vec::mem::Empty, E8a8d, true, 0, "empty", rawparts);
 config!(CEmpty0c, "empty0c", dyn Cloneable, any_vec::mem::Empty, any_vec::mem::Empty, E0a1d, true, 0, "empty", rawparts, cloneable);
@@ -534,7 +545,7 @@ fn main() {
         };
     }
     #[cfg(feature = "alloc")]
-    dispatch!(CEmpty8d, CEmpty0c, CHeap8n, CHeap8d, CHeap8c, CHeap3c, CHeap0c, CHeap8css, CStack8c, CHeap3n, CHeap160, CHeap0d, CHeap1n, CHeap2d, CHeap12d, CHeap16d, CHeap24d, CHeap32d, CHeap64n, CHeap160a32, CHeap0n, CFence8d, CFence3n, CFence24d, CFence160, CFence0d, CFenceOver8d, CFenceOver3c, CStack24x3, CStackN3, CStack8x3m, CStack8x3p, CStack8x2p, CStackN2, CStack16x4, CStack32x4, CStack64x2, CStack0d);
+    dispatch!(CEmpty8d, CEmpty0c, CHeap8s, CHeap8y, CHeap8sy, CHeap8cs, CHeap8cy, CStack8sy, CHeap8n, CHeap8d, CHeap8c, CHeap3c, CHeap0c, CHeap8css, CStack8c, CHeap3n, CHeap160, CHeap0d, CHeap1n, CHeap2d, CHeap12d, CHeap16d, CHeap24d, CHeap32d, CHeap64n, CHeap160a32, CHeap0n, CFence8d, CFence3n, CFence24d, CFence160, CFence0d, CFenceOver8d, CFenceOver3c, CStack24x3, CStackN3, CStack8x3m, CStack8x3p, CStack8x2p, CStackN2, CStack16x4, CStack32x4, CStack64x2, CStack0d);
     #[cfg(not(feature = "alloc"))]
-    dispatch!(CEmpty8d, CEmpty0c, CStack8c, CFence8d, CFence3n, CFence24d, CFence160, CFence0d, CFenceOver8d, CFenceOver3c, CStack24x3, CStackN3, CStack8x3m, CStack8x3p, CStack8x2p, CStackN2, CStack16x4, CStack32x4, CStack64x2, CStack0d);
+    dispatch!(CStack8sy, CEmpty8d, CEmpty0c, CStack8c, CFence8d, CFence3n, CFence24d, CFence160, CFence0d, CFenceOver8d, CFenceOver3c, CStack24x3, CStackN3, CStack8x3m, CStack8x3p, CStack8x2p, CStackN2, CStack16x4, CStack32x4, CStack64x2, CStack0d);
 }
